@@ -111,6 +111,8 @@ class Hist:
             what = {"25": "cursorvis", "12": "cursorblink"}.get(p[2]) if p[1] == "mode" else ("cursorshape" if p[1] == "shape" else None)
             if what in self.last:
                 stat["reply:after-the-control-was-set"] += 1
+            if p[1] == "sgr" and p[3] == "1" and self.last.get("xterm.cap_rgb8") == 0:
+                self.trigger.add("forced_rgb8")
             self.add(line)
 
     def early(self):
@@ -129,7 +131,9 @@ class Hist:
             stat["ctl:not-a-control"] += 1
             return
         if r < 0.07:
-            self.add(f"ctl xterm.cap_rgb8 {rng.choice([0, 1, 5])}")
+            v = rng.choice([0, 1, 5])
+            self.last["xterm.cap_rgb8"] = v
+            self.add(f"ctl xterm.cap_rgb8 {v}")
             return
         c = rng.choice(["altscreen", "cursorvis", "mouse", "mouse", "cursorblink", "cursorshape", "keypad_app"])
         if c in self.last and rng.random() < 0.25:
@@ -240,7 +244,9 @@ def history():
     if buf or kind == "tickitb":
         stat["output:buffered"] += 1
     if rng.random() < 0.2:
-        h.add(f"ctl xterm.cap_rgb8 {rng.choice([1, 1, 1, 0])}"); stat["rgb8:forced-at-start"] += 1
+        v = rng.choice([1, 1, 1, 0])
+        h.last["xterm.cap_rgb8"] = v
+        h.add(f"ctl xterm.cap_rgb8 {v}"); stat["rgb8:forced-at-start"] += 1
     mode = rng.random()
     if mode < 0.55:
         h.deliver(); stat["replies:prompt"] += 1
